@@ -561,7 +561,9 @@ func (m *mp) reconcileProvisioner(keys []types.NamespacedName) (ran bool, create
 			created, _ = lo.Difference(after, before)
 			return m.cp.ITCalls != calls, created
 		default:
-			if m.clk.HasWaiters() {
+			// the batcher first waits (1 s timer) for the trigger, which is already armed; only the two timers of the
+			// batching window (max, idle) may be fired, otherwise the select could see the 1 s timer and the trigger at once
+			if m.clk.Waiters() >= 2 {
 				m.clk.Step(11 * time.Second)
 			}
 			time.Sleep(50 * time.Microsecond)
